@@ -6,7 +6,9 @@ import (
 	"path/filepath"
 	"sort"
 	"strings"
+	"time"
 
+	kv "github.com/XiXi-2024/xixi-kv"
 	"verifharness/kvh"
 )
 
@@ -323,7 +325,7 @@ func (x *crashExec) verify(inst *kvh.Instant, upper int) {
 		// continuation: the recovered database accepts a write, and the next restart shows the
 		// recovered mapping plus that write (an interrupted tail must not poison later appends)
 		continued := false
-		if (inst.Event.Seq+vi)%3 == 1 || x.c.Only != nil {
+		if (inst.Event.Seq+vi)%3 == 1 || x.c.Only != nil || (inst.InFlight && inst.OpKind == "batch" && (inst.Event.Seq+vi)%2 == 0) {
 			continued = true
 			cv := kvh.GenValue(uint64(inst.Event.Seq)+900, 9)
 			if err := db.Put([]byte("~continuation"), cv); err != nil {
@@ -332,6 +334,19 @@ func (x *crashExec) verify(inst *kvh.Instant, upper int) {
 				return
 			}
 			dump["~continuation"] = cv
+			if inst.InFlight && inst.OpKind == "batch" {
+				// the image may hold records of the interrupted batch: a LATER committed batch must not adopt them.
+				// Batch ids are time based; wait so that the new id cannot equal the interrupted batch's id.
+				time.Sleep(2 * time.Millisecond)
+				bv := kvh.GenValue(uint64(inst.Event.Seq)+901, 7)
+				if err := commitOne(db, []byte("~continuation-batch"), bv); err != nil {
+					_ = db.Close()
+					x.fail, x.failSpec = &kvh.Fail{Sig: "write-after-recovery-fails", Msg: where + ": batch on the recovered database: " + err.Error()}, spec
+					return
+				}
+				dump["~continuation-batch"] = bv
+				x.cs.labels["batch-commit-and-restart-after-crash-inside-batch"]++
+			}
 			d = kvh.StateDigest(dump)
 			x.cs.labels["write-and-restart-after-recovery"]++
 		}
@@ -601,6 +616,20 @@ func (x *crashExec) openArmed(img string, reader kvh.Opt, level int, out *[]*kvh
 type dbHandle = interface {
 	Close() error
 	Put(key, value []byte) error
+}
+
+// commitOne commits a one-record batch on a recovered database.
+func commitOne(db dbHandle, key, val []byte) error {
+	real, ok := db.(*kv.DB)
+	if !ok {
+		return nil
+	}
+	b := real.NewBatch(kv.BatchOptions{})
+	if err := b.Put(key, val); err != nil {
+		_ = b.Commit()
+		return err
+	}
+	return b.Commit()
 }
 
 // verifyNested checks the images of crashes during a recovery Open.
